@@ -350,7 +350,7 @@ REQUIRED_PROBES = {
             "fault_fired_sys_open", "fault_fired_sys_write", "fault_fired_sys_mmap",
             "fault_fired_sys_statx", "fault_fired_sys_close", "fault_fired_sys_fchmod",
             "fault_fired_sys_ftruncate", "fault_fired_sys_fork", "fault_fired_sys_pipe",
-            "fault_fired_sys_rename", "fault_fired_sys_unlink"],
+            "fault_fired_sys_rename", "fault_fired_sys_unlink", "history_sigchld_ignored"],
     "C18": ["probe_error_exit_before_creator_ran", "fault_fired_err", "prior_busy", "sysfault_profiles",
             "fault_fired_sys_open", "fault_fired_sys_mmap"],
     "C06": ["sysfault_rules_fired", "prior_busy", "prior_ff-longer", "prior_aa-exact", "class_tls",
